@@ -17,7 +17,7 @@ Init == text = <<>>
 Next == Len(text) < MaxLen /\ \E c \in Sigma : text' = Append(text, c)
 Spec == Init /\ [][Next]_text
 
-Summary(o) == [verdict |-> o.verdict, kind |-> o.kind, why |-> o.why, pos |-> o.pos, tree |-> o.tree, errs |-> o.errs]
+Summary(o) == o
 Case == [text |-> text, o |-> [d \in DialectSet |-> Summary(Load(d, text))]]
 EmitCase == Emit => PrintT(ToJson(Case))
 (* the reference is total: every text has a verdict in every dialect *)
